@@ -26,6 +26,10 @@ pub enum Case {
     /// the weight the integrator applies to every evaluation of the rule at position `row + 1` (>= 4), read out by an
     /// integrand that is 1 at one evaluation and 0 elsewhere: must be the table weight of that node, bit for bit
     ConsumedWeights { family: usize, row: usize },
+    /// the value the integrator computes with the rule at position `row + 1` (>= 4) for a random polynomial of degree
+    /// <= 2n-1 (orthonormal basis, signed coefficients): earlier rules see constants that never agree, the two rules
+    /// before see zero, the tolerance exceeds the value - what comes back is the rule applied to the polynomial
+    ConsumedPoly { family: usize, row: usize, seed: u64 },
 }
 
 fn call_integrator(f: Family, g: &mut dyn FnMut(f64) -> f64, tol: f64) -> Result<Result<f64, String>, Caught> {
@@ -310,6 +314,58 @@ pub fn run_case(case: &Case) -> Outcome {
             }
             o.pass()
         }
+        Case::ConsumedPoly { family, row, seed } => {
+            let f = FAMILIES[*family % 5];
+            o.label(format!("consumed-poly-{}", f.name()));
+            o.nontrivial = true;
+            let rows = table(f);
+            let n = 4 + *row % (rows.len() - 3);
+            let first: usize = (1..n).sum();
+            let expanded = expand(f, rows[n - 1]);
+            let m = 2 * n - 1;
+            let mut st = *seed;
+            let a: Vec<f64> = (0..=m).map(|_| splitmix(&mut st)).collect();
+            let poly = |x: f64| -> f64 { f.orthonormal(m, x).iter().zip(a.iter()).map(|(u, v)| u * v).sum() };
+            let sa: f64 = expanded.iter().map(|&(x, w)| w * poly(x).abs()).sum();
+            if !(sa > 1e-300 && sa.is_finite()) {
+                return o.discard("degenerate polynomial");
+            }
+            let scale = 1.0 / sa;
+            let mut count = 0usize;
+            let mut g = |x: f64| {
+                let i = count;
+                count += 1;
+                let k = rule_of_call(i) + 1;
+                if k + 2 < n {
+                    if (n - 3 - k) % 2 == 0 {
+                        1e3
+                    } else {
+                        0.0
+                    }
+                } else if k < n {
+                    0.0
+                } else {
+                    scale * poly(x)
+                }
+            };
+            let res = call_integrator(f, &mut g, 10.0);
+            let v = match res {
+                Ok(Ok(v)) => v,
+                Ok(Err(e)) => return o.fail(format!("integrate_{}: polynomial probe of rule {n} returned Err({e})", f.name())),
+                Err(c) => return o.fail(format!("{c:?}")),
+            };
+            if count != first + n {
+                return o.fail(format!("integrate_{}: polynomial probe of rule {n} used {count} evaluations, expected {}", f.name(), first + n));
+            }
+            let exact = scale * a[0] * f.mu0().sqrt();
+            let err = (v - exact).abs();
+            let bound = EXACT_TOL * exact.abs().max(1.0);
+            o.set("ratio_consumed_poly", err / bound);
+            if !(err <= bound) {
+                return o.fail(format!("integrate_{}: the rule at position {n}, applied by the integrator to a random polynomial of degree {m} (orthonormal basis, seed {seed}, scaled to sum w|p| = 1), gives {v:e}; the exact integral is {exact:e}", f.name()));
+            }
+            o.pass()
+        }
         Case::EndToEnd { family, k } => {
             let f = FAMILIES[*family % 5];
             o.label(format!("end-to-end-{}", f.name()));
@@ -342,7 +398,11 @@ pub fn run_case(case: &Case) -> Outcome {
 }
 
 fn strategy(_t: Tier) -> BoxedStrategy<Case> {
-    (0usize..5, 0usize..100, any::<u64>()).prop_map(|(family, row, seed)| Case::RandPoly { family, row, seed }).boxed()
+    prop_oneof![
+        3 => (0usize..5, 0usize..100, any::<u64>()).prop_map(|(family, row, seed)| Case::RandPoly { family, row, seed }),
+        1 => (0usize..5, 0usize..100, any::<u64>()).prop_map(|(family, row, seed)| Case::ConsumedPoly { family, row, seed }),
+    ]
+    .boxed()
 }
 
 pub fn run(opts: &Opts) -> i32 {
@@ -381,11 +441,14 @@ pub fn run(opts: &Opts) -> i32 {
         spec.enumerated.push(Case::ConsumedNodes { family: fi });
         for row in 3..table(*f).len() {
             spec.enumerated.push(Case::ConsumedWeights { family: fi, row });
+            for sd in 0..opts.tier.pick(2u64, 8) {
+                spec.enumerated.push(Case::ConsumedPoly { family: fi, row: row - 3, seed: 500 * row as u64 + sd + 131 * opts.seed });
+            }
         }
     }
     spec.cases = opts.tier.pick(5_000, 100_000);
     spec.exhaustive = Some("every row of the five Gaussian tables (structure, all monomials of degree <= 2n-1, independent Golub-Welsch/closed-form rule) and every tanh-sinh pair; the nodes of every rule and the weights of every rule from the fourth on as applied by the public integrators".into());
-    spec.rule = "enumerated: every row n of WEIGHTS_LEGENDRE/HERMITE/LAGUERRE/CHEBYSHEV/CHEBYSHEV_SECOND of the working tree, expanded as the integrators consume it (x == 0.0 once, otherwise +-x): exactly n points, distinct (>1e-12), inside the domain, positive weights, every monomial of degree <= 2n-1 against the exact moment within 1e-9 sum w|p|, node/weight agreement with an independently computed rule (Golub-Welsch eigenproblem, closed-form Chebyshev) within 1e-10; random polynomials of degree <= 2n-1 in the orthonormal basis (8/64 per row enumerated + generated seeds); every tanh-sinh (w,x) against the double-exponential formula (rel 1e-12 / abs 4 eps); end-to-end integrate_* on monomials. As consumed by the public integrators: a never-converging instrumented integrand records every abscissa (rule n must be asked for exactly the n table nodes, n(n+1)/2 evaluations in total) and an integrand that is 1 at a single evaluation reads out the weight applied there for every rule from the fourth on (bit-equal to the table). Non-trivial = rows with n >= 2, all tanh-sinh pairs. Distinct = distinct case JSON.".into();
+    spec.rule = "enumerated: every row n of WEIGHTS_LEGENDRE/HERMITE/LAGUERRE/CHEBYSHEV/CHEBYSHEV_SECOND of the working tree, expanded as the integrators consume it (x == 0.0 once, otherwise +-x): exactly n points, distinct (>1e-12), inside the domain, positive weights, every monomial of degree <= 2n-1 against the exact moment within 1e-9 sum w|p|, node/weight agreement with an independently computed rule (Golub-Welsch eigenproblem, closed-form Chebyshev) within 1e-10; random polynomials of degree <= 2n-1 in the orthonormal basis (8/64 per row enumerated + generated seeds); every tanh-sinh (w,x) against the double-exponential formula (rel 1e-12 / abs 4 eps); end-to-end integrate_* on monomials. As consumed by the public integrators: a never-converging instrumented integrand records every abscissa (rule n must be asked for exactly the n table nodes, n(n+1)/2 evaluations in total) and an integrand that is 1 at a single evaluation reads out the weight applied there for every rule from the fourth on (bit-equal to the table); the same read-out with a random signed polynomial of degree <= 2n-1 at all nodes of the rule (2/8 per row enumerated + generated seeds) must give its exact integral within 1e-9 sum w|p| - the rule as a linear functional. Non-trivial = rows with n >= 2, all tanh-sinh pairs. Distinct = distinct case JSON.".into();
     spec.assumptions = vec!["exact moments from Gamma-function closed forms".into(), "nalgebra SymmetricEigen accurate to ~1e-13 for the Jacobi matrices up to n = 27".into()];
     spec.max_discard_frac = 0.0;
     run_spec(spec, opts)
